@@ -63,8 +63,6 @@ def Justified (vers : List Ver) (st : Step) (s : Option Entry) : Out → Prop
 
 theorem skips_etag : skipsUpdate "ETAG" = false := by decide
 theorem skips_lm : skipsUpdate "LAST_MODIFIED" = false := by decide
-theorem skips_cc : skipsUpdate "CACHE_CONTROL" = false := by decide
-theorem skips_cl : skipsUpdate "CONTENT_LENGTH" = false := by decide
 
 theorem trimValue_etagOk {v : Option Bytes} (h : EtagOk v) : v.map trimValue = v := by
   cases h with
@@ -143,6 +141,17 @@ theorem eval_inm_notModified {f : List Bytes} {im : Option (List Bytes)} {ims im
     · have hg' : fieldMatches g etag false = false := by simpa using hg
       simp [eval, hg'] at h
 
+theorem eval_none_ims {im : Option (List Bytes)} {etag : Option Bytes} {t m : Int}
+    (hnot : eval none im (some t) etag (some m) ≠ .preconditionFailed) (hle : m ≤ t) :
+    eval none im (some t) etag (some m) = .notModified := by
+  cases im with
+  | none => simp [eval, evalRest, hle]
+  | some g =>
+    by_cases hg : fieldMatches g etag false = true
+    · simp [eval, evalRest, hg, hle]
+    · have hg' : fieldMatches g etag false = false := by simpa using hg
+      simp [eval, hg'] at hnot
+
 theorem storeNew_faithful {vers : List Ver} (hv : VersOk vers) (k i : Nat) (fr : Bool) :
     (storeNew vers k i fr).Faithful vers := by
   refine ⟨?_, rfl, ?_⟩
@@ -168,5 +177,240 @@ theorem origin_eval_miss {vers : List Ver} {st : Step} (hok : StepOk st) :
     | junk => simp [Req.ofStep, h, ImsTok.toTime]
     | now => exact absurd h hok.notNow
   simp only [missFwd, h1, h2, h3, clientVerdict]
+
+/-- the scripted origin, case by case -/
+theorem originReply_cases (vers : List Ver) (st : Step) (f : Fwd) :
+    (st.omode = .err ∧ originReply vers st f = .error) ∨
+    (st.omode ≠ .err ∧
+      ((eval f.inm f.im f.ims.toTime (verOf vers st.k).etag (verOf vers st.k).lm = .preconditionFailed ∧
+          originReply vers st f = .precond) ∨
+       (eval f.inm f.im f.ims.toTime (verOf vers st.k).etag (verOf vers st.k).lm = .notModified ∧
+          ∃ cl, originReply vers st f = .notMod st.k cl ∧ (∀ n, cl = some n → st.omode = .cl n)) ∨
+       (eval f.inm f.im f.ims.toTime (verOf vers st.k).etag (verOf vers st.k).lm = .perform ∧
+          originReply vers st f = .ok st.k))) := by
+  unfold originReply
+  cases hm : st.omode with
+  | err => exact Or.inl ⟨rfl, rfl⟩
+  | ref =>
+    refine Or.inr ⟨by simp, ?_⟩
+    show _ ∨ _ ∨ _
+    cases hv : eval f.inm f.im f.ims.toTime (verOf vers st.k).etag (verOf vers st.k).lm with
+    | preconditionFailed => exact Or.inl ⟨rfl, by simp [originVerdict, hv, replyOf]⟩
+    | notModified => exact Or.inr (Or.inl ⟨rfl, none, by simp [originVerdict, hv, replyOf], by intro n h; cases h⟩)
+    | perform => exact Or.inr (Or.inr ⟨rfl, by simp [originVerdict, hv, replyOf]⟩)
+  | cl n =>
+    refine Or.inr ⟨by simp, ?_⟩
+    cases hv : eval f.inm f.im f.ims.toTime (verOf vers st.k).etag (verOf vers st.k).lm with
+    | preconditionFailed => exact Or.inl ⟨rfl, by simp [originVerdict, hv, replyOf]⟩
+    | notModified =>
+      exact Or.inr (Or.inl ⟨rfl, some n, by simp [originVerdict, hv, replyOf], by intro m h; injection h with h; subst h; rfl⟩)
+    | perform => exact Or.inr (Or.inr ⟨rfl, by simp [originVerdict, hv, replyOf]⟩)
+
+theorem stateOk_none (vers : List Ver) : StateOk vers none := by intro e h; cases h
+theorem stateOk_some {vers : List Ver} {e : Entry} (h : e.Faithful vers) : StateOk vers (some e) := by
+  intro e' h'; injection h' with h'; subst h'; exact h
+
+/-- a miss: the origin's verdict on the client's own conditional headers is relayed -/
+theorem stepMiss_ok {vers : List Ver} (hv : VersOk vers) (i : Nat) {st : Step} (hok : StepOk st) :
+    Justified vers st none (stepMiss vers i st).2.1 ∧ StateOk vers (stepMiss vers i st).1 := by
+  have hev := origin_eval_miss (vers := vers) hok
+  unfold stepMiss
+  rcases originReply_cases vers st (missFwd st) with ⟨hm, hr⟩ | ⟨_, ⟨hV, hr⟩ | ⟨hV, cl, hr, _⟩ | ⟨hV, hr⟩⟩
+  · simp only [hr]
+    exact ⟨⟨rfl, hm⟩, stateOk_none vers⟩
+  · simp only [hr]
+    refine ⟨Or.inr ?_, stateOk_none vers⟩
+    rw [ifMatchHolds_iff st _ (verOf vers st.k).lm, ← hev, hV]
+    simp
+  · simp only [hr]
+    refine ⟨Or.inl ?_, stateOk_none vers⟩
+    rw [← hev, hV]
+  · simp only [hr]
+    have hf := storeNew_faithful hv st.k i st.fresh
+    refine ⟨⟨hf, ?_⟩, stateOk_some hf⟩
+    rw [hf.etag]
+    show ifMatchHolds st (verOf vers st.k).etag
+    rw [ifMatchHolds_iff st _ (verOf vers st.k).lm, ← hev, hV]
+    simp
+
+/-- a fresh hit: `processConditional` is RFC 9110 13.2.2 against the cached response -/
+theorem stepHit_ok {vers : List Ver} (hv : VersOk vers) {st : Step} (hok : StepOk st) {e : Entry}
+    (hf : e.Faithful vers) (h : Bool) :
+    Justified vers st (some e) (stepHit e st h).2.1 ∧ StateOk vers (stepHit e st h).1 := by
+  have het : EtagOk e.view.etag := by
+    show EtagOk e.etag
+    rw [hf.etag]; exact (hv e.body).1
+  have href := hitAnswer_eq_reference e.view (Req.ofStep st) rfl het hok.req (modTime_nonneg hf)
+  have hcv : eval (Req.ofStep st).inm (Req.ofStep st).im (Req.ofStep st).ims e.view.etag (some e.view.modTime)
+      = clientVerdict st e.etag (some e.view.modTime) := rfl
+  rw [hcv] at href
+  unfold stepHit
+  rw [href]
+  cases hV : clientVerdict st e.etag (some e.view.modTime) with
+  | preconditionFailed => exact ⟨Or.inl ⟨e, rfl, hV⟩, stateOk_some hf⟩
+  | notModified => exact ⟨⟨e, rfl, hV⟩, stateOk_some hf⟩
+  | perform =>
+    refine ⟨⟨hf, ?_⟩, stateOk_some hf⟩
+    rw [ifMatchHolds_iff st _ (some e.view.modTime), hV]
+    simp
+
+theorem update304_faithful {vers : List Ver} (hv : VersOk vers) {e : Entry} (hf : e.Faithful vers) (k i : Nat) (fr : Bool)
+    (htag : (verOf vers k).etag = (verOf vers e.body).etag) :
+    (update304 vers e k i fr none).Faithful vers ∧ (update304 vers e k i fr none).etag = (verOf vers k).etag := by
+  have hbody : (update304 vers e k i fr none).body = e.body := rfl
+  have hetag : (update304 vers e k i fr none).etag = (verOf vers k).etag := by
+    unfold update304
+    simp only [skips_etag, Bool.false_eq_true, if_false]
+    cases hk : (verOf vers k).etag with
+    | none => simp only; rw [hf.etag, ← htag, hk]
+    | some x =>
+      simp only
+      have := trimValue_etagOk (hv k).1
+      rw [hk] at this
+      simpa using this
+  refine ⟨⟨?_, ?_, ?_⟩, hetag⟩
+  · rw [hetag, hbody, htag]
+  · have : (update304 vers e k i fr none).cl = e.cl := rfl
+    rw [this]; exact hf.cl
+  · intro t ht
+    unfold update304 at ht
+    simp only [skips_lm, Bool.false_eq_true, if_false] at ht
+    cases hk : (verOf vers k).lm with
+    | none => rw [hk] at ht; exact hf.lm t ht
+    | some t' =>
+      rw [hk] at ht
+      injection ht with ht
+      subst ht
+      exact (hv k).2 _ hk
+
+/-- a stale entry: revalidation, under the three exclusions -/
+theorem stepReval_ok {vers : List Ver} (hv : VersOk vers) (i : Nat) {st : Step} (hok : StepOk st) {e : Entry}
+    (hf : e.Faithful vers) (hstale : e.fresh = false) (hc : StepClean vers st (some e)) :
+    Justified vers st (some e) (stepReval vers i st e).2.1 ∧ StateOk vers (stepReval vers i st e).1 := by
+  have him : (revalFwd e st).im = st.im := trimFields_of_ok hok.req.im
+  have hpf : ∀ (m : Option Int),
+      eval (revalFwd e st).inm (revalFwd e st).im (revalFwd e st).ims.toTime (verOf vers st.k).etag (verOf vers st.k).lm
+        ≠ .preconditionFailed → ifMatchHolds st (verOf vers st.k).etag := by
+    intro m hne
+    rw [ifMatchHolds_iff st _ m]
+    intro hcl
+    apply hne
+    unfold clientVerdict at hcl
+    rw [him]
+    exact (eval_pf_congr).mp hcl
+  unfold stepReval
+  rcases originReply_cases vers st (revalFwd e st) with ⟨hm, hr⟩ | ⟨_, ⟨hV, hr⟩ | ⟨hV, cl, hr, hcl⟩ | ⟨hV, hr⟩⟩
+  · -- failed revalidation: the old entry is sent
+    simp only [hr]
+    refine ⟨⟨hf, ?_⟩, stateOk_some hf⟩
+    intro f hfm
+    rw [hc.noStaleIfError e rfl hstale hm] at hfm
+    cases hfm
+  · -- the origin's 412 is passed on
+    simp only [hr]
+    refine ⟨Or.inr ?_, stateOk_some hf⟩
+    intro hholds
+    rw [eval_pf_iff, him] at hV
+    obtain ⟨f, hf1, hf2⟩ := hV
+    rw [hholds f hf1] at hf2
+    cases hf2
+  · -- 304: the entry is updated
+    have hcln : cl = none := by
+      cases cl with
+      | none => rfl
+      | some n => exact absurd (hcl n rfl) (hc.noCl n)
+    subst hcln
+    have htag := hc.sameTag e st.k none rfl hstale hr
+    obtain ⟨hf', hetag'⟩ := update304_faithful hv hf st.k i st.fresh htag
+    have hholds : ifMatchHolds st (verOf vers st.k).etag := hpf none (by rw [hV]; simp)
+    simp only [hr]
+    by_cases hfw : forwards304 (update304 vers e st.k i st.fresh none) st = true
+    · simp only [hfw, if_true]
+      refine ⟨Or.inr ⟨_, hf', hetag', ?_⟩, stateOk_some hf'⟩
+      rw [hetag']
+      unfold clientVerdict
+      cases hinm : st.inm with
+      | some f =>
+        have h1 : (revalFwd e st).inm = some f := by
+          obtain ⟨ess, hfr⟩ := hok.req.inm f hinm
+          simp [revalFwd, hinm, map_trimValue_renders hfr]
+        rw [h1, him] at hV
+        exact eval_inm_notModified hV
+      | none =>
+        -- decided by If-Modified-Since against the updated entry
+        unfold forwards304 at hfw
+        cases hims : (Req.ofStep st).ims with
+        | none => rw [hims] at hfw; cases hfw
+        | some t =>
+          rw [hims] at hfw
+          have hnm : modifiedSince (update304 vers e st.k i st.fresh none).view t = false := by simpa using hfw
+          have hm0 := modTime_nonneg hf'
+          unfold modifiedSince at hnm
+          simp only [Bool.or_eq_false_iff, decide_eq_false_iff_not, Int.not_lt] at hnm
+          have hnotpf : eval none st.im (some t) (verOf vers st.k).etag
+              (some (update304 vers e st.k i st.fresh none).view.modTime) ≠ .preconditionFailed := by
+            rw [Ne, eval_pf_iff]
+            rintro ⟨f, hf1, hf2⟩
+            rw [hholds f hf1] at hf2
+            cases hf2
+          exact eval_none_ims hnotpf hnm.2
+    · have hfw' : forwards304 (update304 vers e st.k i st.fresh none) st = false := by simpa using hfw
+      simp only [hfw', Bool.false_eq_true, if_false]
+      refine ⟨⟨hf', ?_⟩, stateOk_some hf'⟩
+      rw [hetag']; exact hholds
+  · -- 200: the new version replaces the entry
+    simp only [hr]
+    have hf' := storeNew_faithful hv st.k i st.fresh
+    refine ⟨⟨hf', ?_⟩, stateOk_some hf'⟩
+    rw [hf'.etag]
+    exact hpf none (by rw [hV]; simp)
+
+/-- one step, whatever the cache state -/
+theorem step_ok {vers : List Ver} (hv : VersOk vers) (i : Nat) {st : Step} (hok : StepOk st) {s : Option Entry}
+    (hs : StateOk vers s) (hc : StepClean vers st s) :
+    Justified vers st s (step vers i st s).2.1 ∧ StateOk vers (step vers i st s).1 := by
+  unfold step
+  by_cases hm : st.method = .get
+  · simp only [hm, ne_eq, not_true_eq_false, if_false]
+    cases s with
+    | none => exact stepMiss_ok hv i hok
+    | some e =>
+      have hf := hs e rfl
+      by_cases hfr : e.fresh = true
+      · simp only [hfr, if_true]; exact stepHit_ok hv hok hf false
+      · have hfr' : e.fresh = false := by simpa using hfr
+        simp only [hfr', Bool.false_eq_true, if_false]
+        exact stepReval_ok hv i hok hf hfr' hc
+  · simp only [ne_eq, hm, not_false_eq_true, if_true]
+    cases s with
+    | none => exact ⟨hm, hs⟩
+    | some e =>
+      have hf := hs e rfl
+      by_cases hfr : e.fresh = true
+      · simp only [hfr, if_true]; exact stepHit_ok hv hok hf true
+      · have hfr' : e.fresh = false := by simpa using hfr
+        simp only [hfr', Bool.false_eq_true, if_false]
+        exact ⟨hm, hs⟩
+
+/-- the exclusions hold at every step of a history -/
+def CleanRun (vers : List Ver) : Nat → List Step → Option Entry → Prop
+  | _, [], _ => True
+  | i, st :: rest, s => StepClean vers st s ∧ CleanRun vers (i + 1) rest (step vers i st s).1
+
+/-- every answer of a history is justified -/
+def JustifiedRun (vers : List Ver) : Nat → List Step → Option Entry → Prop
+  | _, [], _ => True
+  | i, st :: rest, s => Justified vers st s (step vers i st s).2.1 ∧ JustifiedRun vers (i + 1) rest (step vers i st s).1
+
+theorem run_ok {vers : List Ver} (hv : VersOk vers) (steps : List Step) :
+    ∀ (i : Nat) (s : Option Entry), (∀ st ∈ steps, StepOk st) → StateOk vers s → CleanRun vers i steps s →
+      JustifiedRun vers i steps s ∧ StateOk vers (finalState vers i steps s) := by
+  induction steps with
+  | nil => intro i s _ hs _; exact ⟨trivial, hs⟩
+  | cons st rest ih =>
+    intro i s hok hs hc
+    obtain ⟨h1, h2⟩ := step_ok hv i (hok st (by simp)) hs hc.1
+    obtain ⟨h3, h4⟩ := ih (i + 1) _ (fun x hx => hok x (by simp [hx])) h2 hc.2
+    exact ⟨⟨h1, h3⟩, h4⟩
 
 end SquidModel.Cache.Cond
